@@ -466,6 +466,107 @@ pub async fn flat_liquidation(w: &mut World, m: &mut Mon, r: &mut R, g: usize, l
     }
 }
 
+/// Life of a short-lived bank: created, entered and left by a few accounts through every way a
+/// position can be opened and closed (deposit, partial and full withdrawal, borrow, partial and full
+/// repayment, explicit balance close), with the group admin's `close_bank` simulated after every
+/// step - the ledger monitor judges any accepted one (nobody may still hold more than dust) - and
+/// committed at the end when everybody has left.
+pub async fn close_bank_cycle(w: &mut World, m: &mut Mon, r: &mut R, g: usize, lender: usize) {
+    let hosts: Vec<usize> = (0..w.banks.len()).filter(|b| w.banks[*b].group == g && w.banks[*b].venue.is_none() && matches!(w.banks[*b].oracle, OracleD::Pyth(_) | OracleD::Swb(_) | OracleD::Fixed)).collect();
+    let cols: Vec<usize> = (0..w.banks.len()).filter(|b| w.banks[*b].group == g && usable_collateral(w, *b)).collect();
+    if hosts.is_empty() || cols.is_empty() {
+        m.r.count("scen.close_bank_cycle_not_possible");
+        return;
+    }
+    let mint = w.banks[pick(r, &hosts)].mint;
+    let mut c = default_bank_cfg();
+    if r.gen_bool(0.5) {
+        c.interest_rate_config.protocol_fixed_fee_apr = wi(0.0);
+        c.interest_rate_config.protocol_ir_fee = wi(0.0);
+        c.interest_rate_config.insurance_fee_fixed_apr = wi(0.0);
+        c.interest_rate_config.insurance_ir_fee = wi(0.0);
+        c.interest_rate_config.protocol_origination_fee = wi(0.0);
+    }
+    let now = w.chain.now();
+    let x = match w.add_bank_pyth(g, mint, c, PythPx::simple(1_000_000, -6, now)).await {
+        Ok(b) => b,
+        Err(_) => {
+            m.r.count("scen.close_bank_cycle_not_possible");
+            return;
+        }
+    };
+    let xk = w.banks[x].key;
+    let gk = w.groups[g].key;
+    let admin = clone_kp(&w.groups[g].admin);
+    let fund = 1u64 << 36;
+    let mut members = vec![lender];
+    for _ in 0..2 {
+        let u = w.add_user(fund).await;
+        members.push(w.add_account(g, u).await);
+    }
+    let ca = pick(r, &cols);
+    let steps = r.gen_range(6..16);
+    for _ in 0..steps {
+        let a = pick(r, &members);
+        let auth = w.auth_of(a);
+        let ak = auth.pubkey();
+        let ta = w.ta_of(a, x);
+        let amt = pick(r, &[1u64, 1000, 1_000_000, 1 << 30]);
+        let ixs = match r.gen_range(0..9) {
+            0 | 1 => vec![w.ix_deposit(a, x, ak, ta, amt, None)],
+            2 => vec![w.ix_withdraw(a, x, ak, ta, amt, None)],
+            3 => vec![w.ix_withdraw(a, x, ak, ta, 0, Some(true))],
+            4 => {
+                // collateral elsewhere, then a debt in the short-lived bank
+                let i = w.ix_deposit_any(a, ca, ak, w.ta_of(a, ca), 1 << 30);
+                let _ = w.exec(m, &[i], &[&auth]).await;
+                vec![w.ix_borrow(a, x, ak, ta, amt.min(1_000_000))]
+            }
+            5 => vec![w.ix_repay(a, x, ak, ta, amt, None)],
+            6 => vec![w.ix_repay(a, x, ak, ta, 0, Some(true))],
+            7 => vec![ix::close_balance(gk, w.accts[a].key, ak, xk)],
+            _ => {
+                w.chain.advance(pick(r, &[1i64, 3600, 86_400]));
+                w.refresh_oracles();
+                vec![w.ix_accrue(x)]
+            }
+        };
+        let _ = w.exec(m, &ixs, &[&auth]).await;
+        let o = w.probe(m, &[ix::close_bank(gk, admin.pubkey(), xk)], &[&admin]).await;
+        m.r.count(if o.ok() { "scen.close_bank_probe_accepted" } else { "scen.close_bank_probe_rejected" });
+    }
+    // everybody leaves: debts first, then deposits
+    for a in members.iter().cloned() {
+        let auth = w.auth_of(a);
+        let ak = auth.pubkey();
+        let ta = w.ta_of(a, x);
+        let i = w.ix_repay(a, x, ak, ta, 0, Some(true));
+        let _ = w.exec(m, &[i], &[&auth]).await;
+    }
+    for a in members.iter().cloned() {
+        let auth = w.auth_of(a);
+        let ak = auth.pubkey();
+        let ta = w.ta_of(a, x);
+        let i = w.ix_withdraw(a, x, ak, ta, 0, Some(true));
+        let _ = w.exec(m, &[i], &[&auth]).await;
+        let i = ix::close_balance(gk, w.accts[a].key, ak, xk);
+        let _ = w.exec(m, &[i], &[&auth]).await;
+        let o = w.probe(m, &[ix::close_bank(gk, admin.pubkey(), xk)], &[&admin]).await;
+        m.r.count(if o.ok() { "scen.close_bank_probe_accepted" } else { "scen.close_bank_probe_rejected" });
+    }
+    let o = w.exec(m, &[ix::close_bank(gk, admin.pubkey(), xk)], &[&admin]).await;
+    if o.ok() {
+        m.r.count("scen.close_bank_committed");
+        // the bank is gone; it was the last one added
+        if w.banks.last().map(|b| b.key) == Some(xk) {
+            w.banks.pop();
+        }
+    } else {
+        m.r.count(&format!("scen.close_bank_at_the_end_rejected/{}", o.custom_code().map(|c| c.to_string()).unwrap_or_else(|| "other".into())));
+        // keep the world consistent: nobody uses the leftover bank again, but it stays listed
+    }
+}
+
 /// Receivership bracket: [init record] start, withdraw x, repay y, end.
 pub fn receivership_ixs(w: &World, le: usize, receiver: &Keypair, wd: Option<(usize, u64, bool)>, rp: Option<(usize, u64, bool)>, with_init: bool, tas: &[solana_sdk::pubkey::Pubkey]) -> Vec<Instruction> {
     let acct = w.accts[le].key;
@@ -1030,7 +1131,7 @@ pub async fn wipeout(w: &mut World, m: &mut Mon, r: &mut R, g: usize, lender: us
     }
     let saved_ca = save_price(w, ca);
     scale_price_any(w, ca, 1e-12).await;
-    if !exact && r.gen_bool(0.5) {
+    if !exact && r.gen_bool(if m.r.is("C02") { 1.0 } else { 0.5 }) {
         // the worthless collateral is seized completely, which leaves an account that owes and
         // holds nothing: its owner must not be able to close it (the debt would lose its record)
         let pos = {
